@@ -4,7 +4,7 @@
 From Coq Require Import Arith NArith ZArith List Bool.
 From Verif Require Import Base.Bytes Base.Hash Model.Merkle Model.MerkleSpec Model.TreeStore Model.BridgeStore
   Proofs.Frontier Proofs.Rht Proofs.InitCache Proofs.C01Proofs Proofs.BridgeStoreProofs
-  Proofs.TreeStoreProofs Proofs.TreeStoreCorollaries.
+  Proofs.TreeStoreProofs Proofs.TreeStoreCorollaries Proofs.BridgeReach.
 Import ListNotations.
 Local Close Scope N_scope.
 
@@ -100,7 +100,44 @@ Theorem C07_store_retry_is_clean_roots : forall db1 mem1 db2 mem2 L, Reach HT no
 Proof. exact (same_history_same_roots HT node node_inj zhf Hzh). Qed.
 End Store.
 
+
+(* ================= processor level: the bridge processor model that is compared with the Go code on every run =================
+   `BReach HT node zhf leafh st`: st is reachable from the empty processor by ProcessBlock of well-formed blocks (block number
+   above every recorded one, bridge positions increasing, deposit count < 2^HT) under ANY storage fault, by Reorg and by restart.
+   The executable instance is HT := 32, node := Keccak, zhf := zero table, leafh := bridge_leaf. *)
+Section Processor.
+Variable HT : nat.
+Variable node : N -> N -> N.
+Hypothesis node_inj : forall a b c d, node a b = node c d -> a = c /\ b = d.
+Variable zhf : nat -> N.
+Hypothesis Hzh : forall h, (h <= HT)%nat -> zhf h = zero node 0%N h.
+Variable leafh : bridge_ev -> N.
+Hypothesis Hleaf : forall b, leafh b <> 0%N.
+(* the processor only ever drives its exit tree through the operations of `Reach`: the store invariant holds in every
+   reachable processor state, for the history read off the bridge table; deposit counts in the table are 0,1,2,... *)
+Theorem C07_processor_invariant : forall st, BReach HT node zhf leafh st -> BInv HT node zhf leafh st.
+Proof. exact (BReach_inv HT node node_inj zhf Hzh leafh Hleaf). Qed.
+(* whichever statement fails, the processor returns to the same database and to a reachable state *)
+Theorem C07_processor_failed_block_clean : forall st f k e st', BReach HT node zhf leafh st -> wf_block HT (st_db st) k ->
+  BridgeStore.Gen.process_block HT node zhf leafh f st k = (Some e, st') -> st_db st' = st_db st /\ BReach HT node zhf leafh st'.
+Proof. intros st f k e st'. apply processor_failed_block_clean. Qed.
+(* two reachable processor states holding the same surviving deposits answer every exit-tree query identically, however they
+   got there (through dropped blocks and Reorg, through failed blocks and retries, through restarts) *)
+Theorem C07_processor_retry_is_clean : forall st1 st2, BReach HT node zhf leafh st1 -> BReach HT node zhf leafh st2 ->
+  hist_of leafh (st_db st1) = hist_of leafh (st_db st2) ->
+  t_roots (d_tree (st_db st1)) = t_roots (d_tree (st_db st2)) /\
+  (forall i, exit_root_by_index (st_db st1) i = exit_root_by_index (st_db st2) i) /\
+  (forall h, root_by_ler (st_db st1) h = root_by_ler (st_db st2) h) /\
+  (forall j k, (j < k)%nat -> (k <= length (d_bridges (st_db st1)))%nat ->
+     let root := mroot node 0%N (lf (hist_of leafh (st_db st1))) HT k in
+     Gen.get_proof HT zhf (d_tree (st_db st1)) (N.of_nat j) root = Gen.get_proof HT zhf (d_tree (st_db st2)) (N.of_nat j) root).
+Proof. exact (processor_same_history_same_answers HT node node_inj zhf Hzh leafh Hleaf). Qed.
+End Processor.
+
 Print Assumptions C07_fault_atomic.
+Print Assumptions C07_processor_invariant.
+Print Assumptions C07_processor_failed_block_clean.
+Print Assumptions C07_processor_retry_is_clean.
 Print Assumptions C07_store_retry_is_clean.
 Print Assumptions C07_store_retry_is_clean_roots.
 Print Assumptions C07_ok_records_whole_block.
